@@ -36,6 +36,7 @@ Definition ID_OUTPUT_MAP : N := 3.
 Definition ID_AUX_ALONZO : N := 4.
 Definition ID_VALUE_MA : N := 5.
 Definition ID_BIGNUM_BYTES : N := 6.
+Definition ID_CONSTR_GENERAL : N := 7.
 
 (* addresses travel as byte strings; [writer_form] restricts them to valid Shelley address bytes *)
 Definition AddressS := SNamed ID_ADDRESS (SBytes 29 57).
@@ -236,7 +237,8 @@ Definition BlockPraos (d : nat) := arr [HeaderPraos; SArrOf 0 (TransactionBody d
    - the map form of an output is only written when it has an inline datum or a script reference;
    - in Alonzo-format auxiliary data the Plutus V1 list (key 2) is written whenever any Plutus script list is;
    - a Value is written as [coin, multiasset] only when some policy of the multiasset has a non-empty Assets;
-   - a stand-alone BigInt uses the bignum tags only for 9 or more bytes without a leading zero. *)
+   - a stand-alone BigInt uses the bignum tags only for 9 or more bytes without a leading zero;
+   - a stand-alone ConstrPlutusData uses the general form (tag 102) only for alternatives above 127. *)
 Definition writer_form (id : N) (v : val) : bool :=
   if id =? ID_ADDRESS then
     match v with
@@ -270,6 +272,11 @@ Definition writer_form (id : N) (v : val) : bool :=
   else if id =? ID_BIGNUM_BYTES then
     match v with
     | VBytes (h :: t) => negb (h =? 0) && (8 <=? N.of_nat (length t))
+    | _ => false
+    end
+  else if id =? ID_CONSTR_GENERAL then
+    match v with
+    | VList (VNat alt :: _) => 128 <=? alt
     | _ => false
     end
   else if id =? ID_AUX_ALONZO then
@@ -332,9 +339,10 @@ Definition NewConstitutionAction := var [(5, [SNullable GovernanceActionId; Cons
 Definition MetadataList (d : nat) := SArrOf 0 (Metadatum d).
 Definition MetadataMap (d : nat) := SMapOf 0 KInsertion (Metadatum d) (Metadatum d).
 Definition PlutusMap (d : nat) := SMapOf 0 KMulti (PlutusData d) (PlutusData d).
+(* stand-alone (no original bytes are kept): the general form is written only for alternatives above 127 *)
 Definition ConstrPlutusData (d : nat) :=
   let fields := SArrAny (PlutusData d) in
-  STagChoice (tag_run 121 7 fields (tag_run 1280 121 fields (cl [(102, arr [U64; fields])]))).
+  STagChoice (tag_run 121 7 fields (tag_run 1280 121 fields (cl [(102, SNamed ID_CONSTR_GENERAL (arr [U64; fields]))]))).
 (* stand-alone BigInt: the bignum tags are written only outside the 64-bit heads, minimal big-endian bytes *)
 Definition BigInt := choice [(6, STagChoice (cl [(2, SNamed ID_BIGNUM_BYTES SBBytes); (3, SNamed ID_BIGNUM_BYTES SBBytes)]));
                              (0, U64); (1, SNint)].
